@@ -1442,6 +1442,11 @@ def layoutpipe_family(tier, seed):
         {"nms": [{"omit_default": True}]},
         {"nms": [{"extra_in": "rest", "extra_out": "rest"}]},
         {"nms": [{"extra_in": "forbid", "map": [{"t": "dict", "m": {"a": ["n", "a"], "b_": ["n", "b"]}}]}]},
+        # two providers that both define skip / only / omit_default: the FIRST one decides, nothing is unioned
+        {"nms": [{"skip": ["c_d"]}, {"skip": ["a", "e__"]}]},
+        {"nms": [{"skip": []}, {"skip": ["c_d", "e__"], "name_style": "camel"}]},
+        {"nms": [{"only": ["a", "b_", "long_name_x", "c_d"]}, {"only": ["a", "b_", "long_name_x"], "skip": ["c_d"]}]},
+        {"nms": [{"omit_default": False}, {"omit_default": True}]},
         # one container KEY at several places of the tree, container keys that differ only in punctuation, interleaved
         # declaration order of sibling containers below the top level, nested lists
         {"nms": [{"map": [{"t": "dict", "m": {"a": ["prof", "addr", "x"], "b_": ["prof", "comp", "addr", "y"], "c_d": ["prof", "comp", "z"]}}]}]},
